@@ -41,13 +41,15 @@ def wsgi_context_lifetime(sx, p):
 
 @harness('C13', params=['wsgi-chunked', 'wsgi-unchunked'],
          functions=['spyne.server.wsgi.WsgiApplication.handle_wsdl_request', 'spyne.server.wsgi.WsgiApplication.is_wsdl_request'],
-         bounds={'schedule': '?wsdl and .wsdl requests; a "wsdl" listener that leaves the document alone, extends it '
+         bounds={'schedule': '?wsdl and .wsdl requests, the first one of an application (which builds the document) or a later one; a "wsdl" listener that leaves the document alone, extends it '
                              'or truncates it (the documented use of that hook)'})
 def wsdl_request(sx, transport):
     """the ?wsdl response obeys the same protocol: one start_response, bytes chunks, Content-Length = body size"""
     import io
     from spyne.server.wsgi import WsgiApplication
-    app = P.get_app('soap11')
+    # a fresh application on the first request (the one that builds the document), the shared one on later requests
+    which = sx.choose('document', ['built by this request', 'cached'])
+    app = P.build('soap11') if which == 'built by this request' else P.get_app('soap11')
     w = WsgiApplication(app, chunked=(transport == 'wsgi-chunked'))
     how = sx.choose('listener', ['none', 'extend', 'truncate'])
     spelling = sx.choose('spelling', ['?wsdl', '.wsdl'])
@@ -62,15 +64,23 @@ def wsdl_request(sx, transport):
                'QUERY_STRING': 'wsdl' if spelling == '?wsdl' else '', 'SERVER_NAME': 'localhost', 'SERVER_PORT': '80',
                'wsgi.url_scheme': 'http', 'wsgi.input': io.BytesIO(b''), 'CONTENT_LENGTH': '0'}
     rec = P.Record()
+    closed = []
+    counting = lambda ctx: closed.append(len(rec.start_response))
+    app.event_manager.add_listener('method_context_closed', counting)
 
     def start_response(status, headers, exc_info=None):
         rec.start_response.append((status, headers, len(rec.chunks)))
-    it = w(environ, start_response)
-    rec.extra['iter_started_with_start_response'] = len(rec.start_response)
-    for c in it:
-        rec.chunks.append(c)
-    rec.extra['closed'] = [len(rec.chunks)]     # context lifetime is not judged here
+    try:
+        it = w(environ, start_response)
+        rec.extra['iter_started_with_start_response'] = len(rec.start_response)
+        for c in it:
+            rec.chunks.append(c)
+    finally:
+        app.event_manager.handlers['method_context_closed'].remove(counting)
+    rec.extra['closed'] = [len(rec.chunks)] * len(closed)     # closed exactly once ...
     problems = O.check_wsgi({'proto': 'soap11'}, rec, allow_eager_close=True)
+    if any(n == 0 for n in closed):
+        problems.append('context closed before start_response')        # ... and not before the response was started
     if not rec.start_response or not rec.start_response[0][0].startswith('200'):
         problems.append('wsdl request not answered with 200')
     sx.observe('problems', problems)
@@ -146,6 +156,9 @@ class StreamSvc(Service):
     @rpc(Integer, _returns=SpIterable(Integer))
     def count(ctx, n):
         GEN['started'] = GEN.get('started', 0) + 1
+        if GEN.get('preset') and hasattr(ctx.transport, 'resp_headers'):
+            # user code announces a length of its own before the first item: what is sent must still be consistent
+            ctx.transport.resp_headers['Content-Length'] = '4096'
         for i in range(n or 0):
             yield i
 
@@ -173,6 +186,7 @@ def streaming_and_abort(sx, p):
     n = sx.choose('n_items', [2, 0, 1])
     abort = sx.choose('abort_after', [None, 0, 1])
     GEN.clear()
+    GEN['preset'] = sx.choose('user_sets_content_length', [False, True])
     body = {'http-json': b'', 'json-json': ('{"count": {"n": %d}}' % n).encode(),
             'xml-xml': ('<count xmlns="tns"><n>%d</n></count>' % n).encode()}[pair]
     environ = {'REQUEST_METHOD': 'POST', 'PATH_INFO': '/', 'QUERY_STRING': '', 'SERVER_NAME': 'localhost',
